@@ -4,10 +4,13 @@ import (
 	"errors"
 	"fmt"
 	"io"
+	"math/rand"
 	"os"
 	"path/filepath"
 	"runtime"
+	"runtime/debug"
 	"strings"
+	"sync"
 	"sync/atomic"
 	"time"
 
@@ -31,7 +34,7 @@ func init() {
 				n = 2400
 			}
 			return fw.Meta{N: n, Level: "exploration", Chunk: 3, CaseTimeoutS: 300, MinNT: 30,
-				Rule:        "case index mod 3: 0 = SimpleDB with a driven schedule: >=40 rotation/flush/compaction cycles with a census (/proc/self/fd, /proc/self/maps filtered by the database directory; runtime goroutine dump filtered by go-sstables frames) at every quiescent point: descriptors <= 4, mappings <= live tables + 3; after Close: 0 descriptors, 0 mappings, no library goroutine (polled <= 5 s), then re-Open in the same process, Close, RemoveAll. 1 = SimpleDB with the live compactor where Close is called while a compaction is in flight (held open at a hook point), plus directories carrying a torn compaction marker; same after-Close census. 2 = table readers (all index loaders, complete and abandoned Scans, range scans; also the repository's four legacy-format fixture tables) and RecordIO readers/writers (incl. readers whose Open fails on a short or damaged file) in seeded create/use/Close sequences; census must return to the baseline. Non-trivial: >=10 censuses taken in the case; distinct by (kind, sequence hash)",
+				Rule:        "case index mod 3: 0 = SimpleDB with a driven schedule: >=40 rotation/flush/compaction cycles with a census (/proc/self/fd, /proc/self/maps filtered by the database directory; runtime goroutine dump filtered by go-sstables frames) at every quiescent point: descriptors <= 4, mappings <= live tables + 3; after Close: 0 descriptors, 0 mappings, no library goroutine (polled <= 5 s), then re-Open in the same process, Close, RemoveAll. 1 = SimpleDB with the live compactor where Close is called while a compaction is in flight (held open at a hook point), plus directories carrying a torn compaction marker or a cut-off last WAL record, and sessions with a burst of concurrent writers/readers (GC off, so that no finalizer hides a dropped reader); same after-Close census. 2 = table readers (all index loaders, complete and abandoned Scans, range scans; also the repository's four legacy-format fixture tables) and RecordIO readers/writers (incl. readers whose Open fails on a short or damaged file) in seeded create/use/Close sequences; census must return to the baseline. Non-trivial: >=10 censuses taken in the case; distinct by (kind, sequence hash)",
 				MinObs:      map[string]int64{"censuses": 1500, "db_cycles": 1200, "closes_during_inflight_compaction": 10, "abandoned_scans": 50, "failed_opens_closed": 50, "after_close_censuses": 100},
 				Assumptions: []string{"Linux /proc is the ground truth for descriptors and mappings", "a goroutine counts as 'library goroutine' when its stack has a go-sstables frame"},
 			}
@@ -239,6 +242,13 @@ func c19DBLive(c *fw.Case) {
 			_ = os.WriteFile(filepath.Join(td, "compaction_successful"), []byte{0x04, 0x00, 0x00}[:r.Intn(4)], 0644)
 			c.Obs("torn_markers_planted", 1)
 		}
+		if r.Intn(3) == 0 {
+			// a cut-off last record in the newest WAL file (what a kill inside an append leaves): recovery tolerates it,
+			// and whatever it opened to read it must be released
+			if c19PlantTornWal(filepath.Join(dir, "wal"), r) {
+				c.Obs("torn_wal_tails_planted", 1)
+			}
+		}
 		// reopen with the live compactor and call Close while a compaction is in flight
 		var inflight int32
 		reached := make(chan struct{}, 1)
@@ -249,6 +259,9 @@ func c19DBLive(c *fw.Case) {
 			}
 		})
 		l := dbOptSet{Memstore: 1 << 30, Threshold: 0, MaxSize: 1 << 40, Ratio: 0.2, ReadBuf: 4096, WriteBuf: 4096, Live: true, IntervalUs: 200}
+		if round%2 == 1 {
+			l.Memstore, l.IntervalUs = 300, 50
+		}
 		db, err = simpledb.NewSimpleDB(dir, l.Options()...)
 		if err == nil {
 			err = db.Open()
@@ -257,6 +270,14 @@ func c19DBLive(c *fw.Case) {
 			simpledb.VerifSetPoint("compaction.selected", nil)
 			c.Violate("resources/open-error", "round %d (live): %v", round, err)
 			return
+		}
+		if round%2 == 1 {
+			// concurrent clients while flushes and compactions run: tables installed under contention must all be
+			// known to Close. GC is off so that a finalizer cannot hide a reader that was dropped from the list.
+			old := debug.SetGCPercent(-1)
+			c19Clients(db, r.Int63())
+			c.Obs("live_sessions_with_concurrent_clients", 1)
+			defer debug.SetGCPercent(old)
 		}
 		select {
 		case <-reached:
@@ -284,6 +305,53 @@ func c19DBLive(c *fw.Case) {
 	if c.Idx%15 == 1 {
 		c.Sample(map[string]any{"kind": "db-live-close-during-compaction", "rounds": rounds})
 	}
+}
+
+// c19PlantTornWal writes a WAL file whose only record is cut inside its payload.
+func c19PlantTornWal(walDir string, r *rand.Rand) bool {
+	tmp := filepath.Join(walDir, "torn.tmp")
+	w, err := recordio.NewFileWriter(recordio.Path(tmp), recordio.CompressionType(recordio.CompressionTypeSnappy))
+	if err != nil || w.Open() != nil {
+		return false
+	}
+	_, _ = w.Write(gen.Bytes(r, 300+r.Intn(300)))
+	if w.Close() != nil {
+		return false
+	}
+	b, err := os.ReadFile(tmp)
+	_ = os.Remove(tmp)
+	if err != nil || len(b) < 60 {
+		return false
+	}
+	ents, _ := os.ReadDir(walDir)
+	name := "000000.wal"
+	for _, e := range ents {
+		if strings.HasSuffix(e.Name(), ".wal") && e.Name() >= name {
+			name = e.Name() // the newest file
+		}
+	}
+	return os.WriteFile(filepath.Join(walDir, name), b[:len(b)-20-r.Intn(20)], 0644) == nil
+}
+
+// c19Clients runs a short burst of concurrent writers and readers against an open database.
+func c19Clients(db *simpledb.DB, seed int64) {
+	var wg sync.WaitGroup
+	for g := 0; g < 4; g++ {
+		wg.Add(1)
+		go func(g int) {
+			defer wg.Done()
+			gr := rand.New(rand.NewSource(seed + int64(g)))
+			for i := 0; i < 400; i++ {
+				k := fmt.Sprintf("k%d", gr.Intn(10))
+				if g < 2 {
+					_ = db.Put(k, fmt.Sprintf("c%d-%d-%s", g, i, strings.Repeat("w", gr.Intn(200))))
+				} else {
+					_, _ = db.Get(k)
+				}
+			}
+		}(g)
+	}
+	wg.Wait()
 }
 
 func c19Readers(c *fw.Case) {
